@@ -4,7 +4,7 @@
 # (out of reach, undecided) are acceptable, rc 1 on a behaviour-preserving change is a false alarm of the check.
 set -u
 D=$1; shift
-EV=/tmp/scratch/ev
+EV=${BENWT:-/tmp/scratch/ev}; TAG=${BENTAG:-}
 mkdir -p /tmp/scratch
 if [ ! -d $EV ]; then git -C /repo worktree add -q --detach $EV HEAD; fi
 cd $EV && git checkout -q --detach $(git -C /repo rev-parse HEAD) && git checkout -q -- . && git clean -fdq -e target
@@ -12,8 +12,8 @@ for v in $D/v*.diff; do
   git -C $EV apply $v || { echo "VARIANT $(basename $v): does not apply"; continue; }
   for PROP in "$@"; do
     cd /verif
-    VERIF_REPO=$EV VERIF_OUT=/tmp/scratch/evout VERIF_EVIDENCE=/tmp/scratch/evev ./check $PROP quick > /tmp/scratch/benign_$(basename $v)_$PROP.log 2>&1; rc=$?
-    echo "VARIANT $(basename $D)/$(basename $v) prop=$PROP rc=$rc $(grep -E '^(VIOLATION|TOOL)' /tmp/scratch/benign_$(basename $v)_$PROP.log | head -2 | cut -c1-220 | tr '\n' ' ')"
+    VERIF_REPO=$EV VERIF_OUT=/tmp/scratch/evout$TAG VERIF_EVIDENCE=/tmp/scratch/evev$TAG ./check $PROP quick > /tmp/scratch/benign${TAG}_$(basename $v)_$PROP.log 2>&1; rc=$?
+    echo "VARIANT $(basename $D)/$(basename $v) prop=$PROP rc=$rc $(grep -E '^(VIOLATION|TOOL)' /tmp/scratch/benign${TAG}_$(basename $v)_$PROP.log | head -2 | cut -c1-220 | tr '\n' ' ')"
   done
   git -C $EV checkout -q -- . ; git -C $EV clean -fdq -e target
 done
